@@ -60,11 +60,12 @@ type entryDef struct {
 }
 
 var (
-	root    = pki.NewRoot("C06 Root", pki.LoadKey("p256-0"))
-	ca      = pki.NewCA("C06 CA", pki.LoadKey("p384-0"), root, pki.CAOpts{})
-	preIss  = pki.NewCA("C06 Precert Signing", pki.LoadKey("p256-1"), ca, pki.CAOpts{EKUs: [][]int{pki.OIDEKUCT}})
-	entries []*entryDef
-	logKeys = map[string]*pki.Key{"p256": pki.LoadKey("p256-3"), "rsa": pki.LoadKey("rsa2048-0")}
+	root       = pki.NewRoot("C06 Root", pki.LoadKey("p256-0"))
+	ca         = pki.NewCA("C06 CA", pki.LoadKey("p384-0"), root, pki.CAOpts{})
+	preIss     = pki.NewCA("C06 Precert Signing", pki.LoadKey("p256-1"), ca, pki.CAOpts{EKUs: [][]int{pki.OIDEKUCT}})
+	entries    []*entryDef
+	extraEntry *entryDef // fifth entry, thorough tier only
+	logKeys    = map[string]*pki.Key{"p256": pki.LoadKey("p256-3"), "rsa": pki.LoadKey("rsa2048-0")}
 )
 
 func init() {
@@ -75,6 +76,8 @@ func init() {
 	p2 := pki.NewLeaf("c06-c", pki.LoadKey("p256-2"), ca, pki.LeafOpts{Exts: []pki.Ext{pki.ExtSAN("c.example"), pki.ExtPoison(), pki.ExtAKI(akiCA[:20])}})
 	akiPI := preIss.T.Key.KeyHash()
 	p3 := pki.NewLeaf("c06-d", pki.LoadKey("p256-2"), preIss, pki.LeafOpts{Exts: []pki.Ext{pki.ExtPoison(), pki.ExtSAN("d.example"), pki.ExtAKI(akiPI[:20])}})
+	l4 := pki.NewLeaf("c06-e", pki.LoadKey("ed25519-0"), ca, pki.LeafOpts{})
+	extraEntry = &entryDef{name: "cert-e(ed25519 leaf)", chain: []*pki.Cert{l4, ca}, full: []*pki.Cert{l4, ca, root}, clock: t0.Add(49*time.Hour + 500*time.Microsecond)}
 	entries = []*entryDef{
 		{name: "cert-a(root omitted)", chain: []*pki.Cert{l0, ca}, full: []*pki.Cert{l0, ca, root}, clock: t0.Add(1500 * time.Microsecond)},
 		{name: "cert-b(root included)", chain: []*pki.Cert{l1, ca, root}, full: []*pki.Cert{l1, ca, root}, clock: t0.Add(7*time.Second + 999999*time.Nanosecond)},
@@ -530,7 +533,8 @@ func TestCheck(t *testing.T) {
 	_ = tls.SHA256
 	maxSeq := 3
 	if r.Thorough() {
-		maxSeq = 4
+		maxSeq = 5
+		entries = append(entries, extraEntry)
 	}
 	var ops []op
 	for e := range entries {
